@@ -195,6 +195,11 @@ func (v *Vue) evaluateNodeAsElement(ctx VueContext, node *html.Node, depth int) 
 		return result, nil
 	}
 
+	// A <slot> that is a chain member is still a slot
+	if node.Data == "slot" {
+		return v.evalSlot(ctx, node, ctx.SlotScope)
+	}
+
 	// Special handling for template tags: evaluate bound attributes and set them in current scope
 	if node.Data == "template" {
 		// A chain member that is an include (or a component tag, which is rewritten to one) includes its
